@@ -63,6 +63,11 @@ type KnownFinding struct {
 	// Regex: Signature is a regular expression (anchored by the author) covering a family of class signatures.
 	Regex bool   `json:"regex,omitempty"`
 	Name  string `json:"name,omitempty"` // short name printed in the KNOWN-FINDING line (default: the signature)
+	// MaxRate / MinAllow: the recorded extent of a class-level finding on the reference tree. When a run hits the class
+	// more than max(MinAllow, MaxRate x scenarios replayed) times, inputs other than the ones behind the finding are
+	// failing: that is reported as a violation (with one member of the class as replay file). 0 = no bound.
+	MaxRate  float64 `json:"max_rate,omitempty"`
+	MinAllow int64   `json:"min_allow,omitempty"`
 	re    *regexp.Regexp
 }
 
@@ -80,6 +85,8 @@ type Ctx struct {
 	knownHits   map[string]int64
 	knownEx     map[string]string
 	knownDesc   map[string]string
+	knownKF     map[string]KnownFinding
+	knownFile   map[string]string // one member scenario per known-finding name, written on first hit
 	violations  int
 	violSeen    map[string]int
 	broken      []string // machinery failures
@@ -104,7 +111,7 @@ func NewCtx(d Driver, tier string) *Ctx {
 		}
 	}
 	c := &Ctx{ID: d.ID(), Tier: tier, Seed: seed, Workers: 12, Start: time.Now(), drv: d,
-		known: map[string]KnownFinding{}, knownHits: map[string]int64{}, knownEx: map[string]string{}, knownDesc: map[string]string{},
+		known: map[string]KnownFinding{}, knownHits: map[string]int64{}, knownEx: map[string]string{}, knownDesc: map[string]string{}, knownKF: map[string]KnownFinding{}, knownFile: map[string]string{},
 		violSeen: map[string]int{}, Extra: map[string]any{}, Level: "model_checking"}
 	// known findings: /verif/known_findings.json plus /verif/known_findings.d/*.json (committed, never written at run time)
 	files := []string{filepath.Join(VerifDir, "known_findings.json")}
@@ -314,6 +321,16 @@ func (c *Ctx) Report(scenario any, ms []Mismatch) bool {
 		if kf, name, ok := c.lookupKnown(m); ok {
 			c.knownHits[name]++
 			c.knownDesc[name] = kf.Description
+			c.knownKF[name] = kf
+			if _, have := c.knownFile[name]; !have && kf.MaxRate > 0 {
+				h := sha1.Sum(append(raw, []byte(name)...))
+				path := filepath.Join(OutDir(), "replays", fmt.Sprintf("%s-known-%x.json", c.ID, h[:6]))
+				rec := map[string]any{"property": c.ID, "signature": m.Signature, "known_finding": name, "detail": m.Detail, "scenario": json.RawMessage(raw)}
+				b, _ := json.MarshalIndent(rec, "", " ")
+				os.MkdirAll(filepath.Dir(path), 0o755)
+				os.WriteFile(path, b, 0o644)
+				c.knownFile[name] = path
+			}
 			if _, have := c.knownEx[name]; !have {
 				c.knownEx[name] = m.Detail
 			}
@@ -371,6 +388,17 @@ func (c *Ctx) Finish() int {
 	sort.Strings(sigs)
 	masked := map[string]any{}
 	for _, s := range sigs {
+		if kf := c.knownKF[s]; kf.MaxRate > 0 {
+			allow := int64(kf.MaxRate * float64(c.Traces))
+			if allow < kf.MinAllow {
+				allow = kf.MinAllow
+			}
+			if c.knownHits[s] > allow {
+				c.violations++
+				fmt.Printf("VIOLATION property=%s replay=%s\n", c.ID, c.knownFile[s])
+				fmt.Printf("  signature=extent-exceeded:%s the known-finding class was hit by %d of %d scenarios; its recorded extent on the reference tree allows %d (max_rate %g): other inputs than those behind the finding are failing\n", s, c.knownHits[s], c.Traces, allow, kf.MaxRate)
+			}
+		}
 		fmt.Printf("KNOWN-FINDING: property=%s %s: %s (%d scenarios; e.g. %s)\n", c.ID, s, c.knownDesc[s], c.knownHits[s], trunc(c.knownEx[s], 300))
 		masked[s] = c.knownHits[s]
 	}
